@@ -3,6 +3,7 @@ import YakModel.SeqCheck
 import YakModel.SessCheck
 import YakModel.EpochCheck
 import YakModel.VersCheck
+import YakModel.AbsorbCheck
 
 open Yak
 
@@ -158,6 +159,26 @@ partial def runVers (h : IO.FS.Stream) : IO UInt32 := do
   IO.println s!"checked {lineNo} diffs {bad}"
   return (if bad == 0 then 0 else 1)
 
+/-- outcome sets of `Proto/Absorb` scenarios (all interleavings of the model) -/
+partial def runAbsorb (h : IO.FS.Stream) : IO UInt32 := do
+  let mut sc : AbsorbCheck.Scen := {}
+  let mut bad := 0
+  let mut lineNo := 0
+  repeat
+    let line ← h.getLine
+    if line.isEmpty then break
+    lineNo := lineNo + 1
+    match AbsorbCheck.stepLine sc line.trimAscii.toString with
+    | .ok (sc', out) =>
+      sc := sc'
+      match out with
+      | some o => IO.println o
+      | none => pure ()
+    | .error e =>
+      bad := bad + 1
+      IO.println s!"DIFF line {lineNo}: {e}"
+  return (if bad == 0 then 0 else 1)
+
 def cfgOf : String → Tree.Cfg
   | "d2" => { fixD2 := false }
   | "d5" => { fixD5 := false }
@@ -173,6 +194,7 @@ def main (args : List String) : IO UInt32 := do
   | ["sess", n] => runSess stdin (n.toNat?.getD 8)
   | ["epoch"] => runEpoch stdin
   | ["vers"] => runVers stdin
+  | ["absorb"] => runAbsorb stdin
   | _ => do
     IO.eprintln "usage: yakmodel unit | seq [fixed|d2|d5|d2d5] [focus classes…] < transcript"
     return 2
